@@ -1,0 +1,19 @@
+// SPDX-FileCopyrightText: 2026 The Pion community <https://pion.ly>
+// SPDX-License-Identifier: MIT
+
+//go:build verif
+
+package sequencenumber
+
+// Machine-checked contracts (comment-only; read by /verif/govc, never compiled into a normal build).
+//
+//@ func (*Unwrapper).Unwrap
+//@   requires state_range: u.init ==> u.lastUnwrapped >= 0 && u.lastUnwrapped < (1<<62)
+//@   modifies u.init, u.lastUnwrapped
+//@   ensures ret_is_state: result == u.lastUnwrapped && u.init
+//@   ensures nonneg: result >= 0
+//@   ensures congruent: uint16(result) == i
+//@   ensures first: !old(u.init) ==> result == int64(i)
+//@   ensures near: old(u.init) && old(u.lastUnwrapped) >= 32768 ==> result - old(u.lastUnwrapped) <= 32768 && old(u.lastUnwrapped) - result <= 32768
+//@   ensures near_floor: old(u.init) && old(u.lastUnwrapped) < 32768 ==> result < 65536 + 32768 && (result - old(u.lastUnwrapped) <= 32768 || result < 65536)
+//@   ensures exact: forall y int64 :: old(u.init) && y >= 0 && y < (1<<62) && uint16(y) == i && y - old(u.lastUnwrapped) < 32768 && old(u.lastUnwrapped) - y < 32768 ==> result == y
